@@ -22,6 +22,43 @@ def assume_margin(x):
         assume(sx.zB(Or(k <= LO, k >= HI, And(k >= 2, k <= HI - 2))))
 
 
+# string-prefix queues: rows take their keys from a concrete pool (symbolic choice, presence, values, expiry); the pool holds
+# members of several queues, near misses of the key range and ordinary keys
+QPOOL = ['a-499999999999999', 'a-500000000000000', 'a-500000000000001', 'ab-500000000000000', 'a', 'a-', 'a.5', 'b-500000000000000',
+         'a-b-500000000000000', 'a-b-500000000000001', 500000000000000, 'A-500000000000000', 'a-b', 'a,500000000000000', '-500000000000000', '-499999999999999', '']
+PREFIXES = ['a', 'a-b', 'b', 'ab', '']
+
+
+def is_member(k, prefix):
+    return isinstance(k, str) and len(k) == len(prefix) + 16 and k.startswith(prefix + '-') and k[-15:].isdigit()
+
+
+def in_known_region(k, prefix):
+    """known finding queue-prefix-extension: keys of the form prefix + '-' + ... that are not members lie in the key range"""
+    return isinstance(k, str) and k.startswith(prefix + '-') and not is_member(k, prefix) and prefix + '-000000000000000' < k < prefix + '-999999999999999'
+
+
+def membership(w, x, P):
+    prefix = P.get('prefix')
+    if prefix is None:
+        return in_range
+    members = [w.bind(k) for k in QPOOL if is_member(k, prefix)]
+
+    def inr(it):
+        return And(it.present, EqR(it.c['raw'].num, 1), OrL(cell_eq(it.c['key'], m) for m in members))
+    return inr
+
+
+def prefix_ctx(w, P, **kw):
+    x = Ctx(w, P, keypool=QPOOL, tags=False, **kw)
+    prefix = P['prefix']
+    if 'queue-prefix-extension' in P.get('exclude', []):
+        for rv in x.s.rowvars:
+            if in_known_region(rv['key'].pykey, prefix):
+                assume(False)
+    return x
+
+
 @directive_aware
 def ob_push(w, P):
     x = Ctx(w, P)
@@ -62,13 +99,14 @@ def ob_push(w, P):
 @directive_aware
 def ob_pull(w, P):
     """pull and peek share the specification except for the fate of the returned item"""
-    x = Ctx(w, P, sym_cfg=False)
+    x = prefix_ctx(w, P, sym_cfg=False) if P.get('prefix') is not None else Ctx(w, P, sym_cfg=False)
+    inr = membership(w, x, P)
     c = x.c
     side = P.get('side', 'front')
     peek = P.get('peek', False)
     want_exp, want_tag = P.get('expire_time', False), P.get('tag', False)
     fn = c.peek if peek else c.pull
-    st, ret = x.call(fn, side=side, expire_time=want_exp, tag=want_tag)
+    st, ret = x.call(fn, prefix=P.get('prefix'), side=side, expire_time=want_exp, tag=want_tag)
     if want_exp and want_tag:
         (k, v), rexp, rtag = ret
     elif want_exp:
@@ -90,18 +128,18 @@ def ob_pull(w, P):
     conj = []
     if k is None:
         flag('queue_empty')
-        x.add('C10', 'default only when no unexpired queue item exists', And(v is None, AndL(Implies(in_range(it), is_dead_last(it)) for it in items)))
+        x.add('C10', 'default only when no unexpired queue item exists', And(v is None, AndL(Implies(inr(it), is_dead_last(it)) for it in items)))
         for it in items:
             p = T1.lookup(it.c['key'], it.c['raw'])
-            conj.append(Implies(in_range(it), Not(p.present)))
-            conj.append(Implies(And(it.present, Not(in_range(it))), And(p.present, same_cols(p, it, CACHE_COLS))))
+            conj.append(Implies(inr(it), Not(p.present)))
+            conj.append(Implies(And(it.present, Not(inr(it))), And(p.present, same_cols(p, it, CACHE_COLS))))
         x.add('C10,C04', 'expired heads removed, everything outside the queue untouched', AndL(conj))
-        x.add('C10', 'no spurious rows', EqI(T1.count(), Count(And(it.present, Not(in_range(it))) for it in items)))
+        x.add('C10', 'no spurious rows', EqI(T1.count(), Count(And(it.present, Not(inr(it))) for it in items)))
     else:
         flag('queue_item')
         kc = w.bind(k)
         tgt = T0.lookup(kc, Cell(INT, 1))
-        ok = And(in_range(tgt), not_dead_first(tgt), x.value_matches(v, tgt))
+        ok = And(inr(tgt), not_dead_first(tgt), x.value_matches(v, tgt))
         if want_exp:
             ok = And(ok, cell_same(w.bind(rexp), tgt.c['expire_time']))
         if want_tag:
@@ -110,14 +148,14 @@ def ob_pull(w, P):
         nrem = []
         for it in items:
             ahead = LtR(it.c['key'].num, tgt.c['key'].num) if side == 'front' else LtR(tgt.c['key'].num, it.c['key'].num)
-            skipped = And(in_range(it), ahead)
+            skipped = And(inr(it), ahead)
             is_t = cell_eq(it.c['key'], kc)
             p = T1.lookup(it.c['key'], it.c['raw'])
             conj.append(Implies(skipped, And(is_dead_last(it), Not(p.present))))
-            gone = skipped if peek else Or(skipped, And(in_range(it), is_t))
+            gone = skipped if peek else Or(skipped, And(inr(it), is_t))
             conj.append(Implies(And(it.present, Not(gone)), And(p.present, same_cols(p, it, CACHE_COLS))))
             if not peek:
-                conj.append(Implies(And(it.present, in_range(it), is_t), Not(p.present)))
+                conj.append(Implies(And(it.present, inr(it), is_t), Not(p.present)))
             nrem.append(And(it.present, gone))
         x.add('C10,C04', 'it is the first unexpired item on that side: only expired items before it are skipped (and removed); ' +
               ('the item stays' if peek else 'the item is removed') + '; nothing else changes', AndL(conj))
@@ -126,7 +164,38 @@ def ob_pull(w, P):
     return x.result()
 
 
-FUNCS = {'ob_push': ['core.Cache.push', 'core.Cache._row_insert', 'core.Cache._cull', 'core.Cache._transact', 'core.Disk.store'],
+@directive_aware
+def ob_push_prefix(w, P):
+    """push on a string-prefix queue: the new key is prefix-%015d with the number next to the extreme member on that side"""
+    x = prefix_ctx(w, P, cull_limit=0)
+    c = x.c
+    prefix, side = P['prefix'], P.get('side', 'back')
+    inr = membership(w, x, P)
+    val = x.s.v_int('val', -2 ** 40, 2 ** 40)
+    st, ret = x.call(c.push, val, prefix=prefix, side=side)
+    now = x.times[0]
+    members = sorted(k for k in QPOOL if is_member(k, prefix))
+    if side == 'front':
+        members.reverse()
+    step = 1 if side == 'back' else -1
+    expected = '%s-%015d' % (prefix, 500000000000000)
+    exp_id = w.intern_text(expected)
+    for m in members:  # from the innermost to the extreme one: the last present one decides
+        it = x.T0.lookup(w.bind(m), Cell(INT, 1))
+        nxt = '%s-%015d' % (prefix, int(m[-15:]) + step)
+        exp_id = IfR(it.present, w.intern_text(nxt), exp_id)
+    x.add('C10', 'push returns prefix-%015d numbered next to the extreme member of that queue on that side (or the middle when the queue is empty)',
+          And(isinstance(ret, str), EqR(w.bind(ret).num, exp_id)) if isinstance(ret, str) else False)
+    kc, rc = w.bind(ret), Cell(INT, 1)
+    x.add('C10', 'push never replaces an existing item', Not(x.T0.lookup(kc, rc).present))
+    new = x.T1.lookup(kc, rc)
+    x.add('C10,C03', 'the pushed item is stored under the returned key with its value', And(new.present, EqI(new.c['value'].cls, INT), EqR(new.c['value'].num, zv(val)), EqI(new.c['expire_time'].cls, NULL)))
+    x.add('C10,C08', 'every other item (other queues, near misses of the key range, ordinary keys) is untouched', And(unchanged(x.T0, x.T1), EqI(x.T1.count(), sx.AddI(x.T0.count(), 1))))
+    x.inv()
+    return x.result()
+
+
+FUNCS = {'ob_push_prefix': ['core.Cache.push', 'core.Cache._row_insert', 'core.Cache._transact'], 'ob_push': ['core.Cache.push', 'core.Cache._row_insert', 'core.Cache._cull', 'core.Cache._transact', 'core.Disk.store'],
          'ob_pull': ['core.Cache.pull', 'core.Cache.peek', 'core.Disk.fetch', 'core.Disk.remove', 'core.Cache._transact']}
 
 
@@ -145,6 +214,11 @@ def jobs(tier):
                 add('ob_pull', 'C10,C04,C08,C01', weight=N, must=['queue_empty', 'queue_item'], N=N, side=side, peek=peek)
         add('ob_pull', 'C10,C04,C08', N=N, side='front', peek=False, expire_time=True, tag=True)
         add('ob_pull', 'C10,C04,C08', N=N, side='back', peek=True, expire_time=True)
+    for prefix in PREFIXES:
+        for side in ('back', 'front'):
+            add('ob_push_prefix', 'C10,C08,C03', weight=6, N=2, side=side, prefix=prefix, kinds=('int',))
+            for peek in (False, True):
+                add('ob_pull', 'C10,C04,C08', weight=6, must=['queue_empty', 'queue_item'], N=2, side=side, peek=peek, prefix=prefix, kinds=('int',))
     for func, P in (('ob_push', dict(side='back', policy='least-recently-stored')), ('ob_pull', dict(side='front', peek=False)), ('ob_pull', dict(side='front', peek=True))):
         nm = func[3:] + ('.peek' if P.get('peek') else '')
         out.append(dict(id=nm + '.busy.noretry', func=func, params=dict(N=2, busy=1, **P), tags=['C14', 'C08'], functions=FUNCS[func], weight=2, must_reach=['timeout_raised']))
